@@ -15,7 +15,8 @@ What is decided by proof (a)+(b), what is validation/search only (c):
                         - a finding: an input in corpus/C13/ makes the real binary terminate abnormally through it, or
                         - listed in corpus/C13/alarms.json as an *open* alarm (explicit assumption, shown in the evidence).
     Any other alarm is an undischarged obligation -> violation search through the CLI.
-(b) totality: the modelled kernels (lean/Cppcheck/Model/*.lean) build without `partial`/`unsafe` definitions.
+(b) hygiene: the modelled kernels (lean/Cppcheck/Model/*.lean) build without `partial`/`unsafe` definitions (says nothing about the
+    C++ loops: most models terminate by explicit fuel).
 (c) validation and search: shipped fuzz corpus + mutated inputs through the real CLI (o1 binary in the quick tier, ASan/UBSan
     build in the thorough tier).  P_impl(input) = normal exit status, no sanitizer report, no time-out.
 """
@@ -29,15 +30,18 @@ RULE = ("CLI cases = (file bytes, option list): shipped fuzz-crash / fuzz-timeou
         "huge-token variants of test/cfg and samples sources, option-file inputs (library cfg, platform xml, project json/vcxproj, addon json, "
         "suppression xml) with mutations, under option sets drawn from --std/--platform/--library/-D/-U/--enable/--inconclusive/--check-level; "
         "distinct = hash of (bytes, options); non-trivial = the input differs from every shipped file and cppcheck got past command-line parsing")
-EXPLANATION = ("Proved in Lean over the table extracted from the current tree: every throw site / throwing std call either cannot propagate out of "
-               "main along any call chain (certificate re-checked by the kernel, lifted by escape_sound), or is one of the listed alarms; handler order "
-               "and actions of the per-file funnels; totality of all modelled kernels (termination proofs). Alarms are guarded (AST-checked "
-               "precondition), findings with a replayed witness, or explicit open assumptions. NOT provable with this technique and only validated by "
-               "sanitised runs of the CLI on corpus + mutated inputs: memory safety, UB-freedom and global termination of the unmodelled C++ code; "
+EXPLANATION = ("PARTIAL. Proved in Lean over the table extracted from the current tree (one sub-claim of the property: problems are reported as findings, "
+               "no exception ends the process): every UNGUARDED throw site / throwing std call that is not a listed alarm cannot propagate, along any call chain, "
+               "out of main, static initialisation, the analysis API or any noexcept function/destructor (certificate re-checked by the kernel over the whole table, "
+               "lifted by escape_sound); handler order and actions of the per-file funnels. Sites with a translator-recognised AST guard (listed per site in the "
+               "evidence) and open alarms are explicit assumptions, as are call-graph completeness and the callables-called-where-created rule A1. "
+               "NOT proved: memory safety, UB-freedom, absence of hangs / bounded running time — nothing in the Lean part speaks about them (the 'models are total' "
+               "obligation is hygiene of the models: most terminate by explicit fuel, which says nothing about the C++ loops). They are only validated by runs of the "
+               "real CLI on corpus + mutated inputs: WITHOUT sanitizers in the quick tier (o1 binary), with ASan/UBSan only in the thorough tier. Also outside: "
                "exceptions of std functions outside the extracted set (substr/erase/insert positions, bad_alloc outside the funnel, iostream).")
 THEOREMS = ["Cppcheck.ExcFunnel.escape_sound", "Cppcheck.ExcFunnel.no_abort", "Cppcheck.ExcFunnel.pathOk_aborts",
             "Cppcheck.C13.cert_closed", "Cppcheck.C13.cert_entries_clear",
-            "Cppcheck.C13.funnel_complete", "Cppcheck.C13.funnel_complete_partial", "Cppcheck.C13.funnel_full_iff_no_alarm",
+            "Cppcheck.C13.funnel_complete", "Cppcheck.C13.funnel_complete_partial", "Cppcheck.C13.funnel_full_of_no_alarm", "Cppcheck.C13.rowCodes_wf",
             "Cppcheck.C13.finding_paths_real", "Cppcheck.C13.funnel_full_counterexample",
             "Cppcheck.C13.funnel_actions", "Cppcheck.C13.terminate_swallowed", "Cppcheck.C13.funnel_takes_analysis_types"]
 MODULES = ["Cppcheck.Props.C13"]
@@ -370,6 +374,12 @@ def analyse(recs):
     for r in recs:
         k = r["k"]
         if k == "fn":
+            if r["id"] in fn and fn[r["id"]].get("nothrow"):
+                r = dict(r, nothrow=True)
+            if r["id"] == "<global-init>":
+                r = dict(r, nothrow=False)
+            if "nothrow" not in r:
+                unrec.append("fn record without exception specification (stale extractor output)")
             fn[r["id"]] = r
         elif k == "class":
             if r["name"] in classes and sorted(classes[r["name"]]) != sorted(r["bases"]) and r["name"] in STD_HIER:
@@ -497,7 +507,11 @@ def analyse(recs):
             if k in seen_site:
                 continue
             seen_site.add(k)
-            sites.append(dict(fn=c["fn"], ty=t, ctx=hls, guard=g, loc=c["loc"], what="call " + c["name"], macro="", call=c))
+            ev = ""
+            if g:
+                ev = "; ".join("%s(%s)" % ("holds" if pol == "+" else "fails", text) for pol, text in c.get("conds", [])
+                               if re.search(r"count\(|find\(|contains\(|size\(\)|hasValue\(|is\s*<", text))
+            sites.append(dict(fn=c["fn"], ty=t, ctx=hls, guard=g, loc=c["loc"], what="call " + c["name"], macro="", call=c, guard_evidence=ev))
     for i, s in enumerate(sites):
         s["id"] = i
     # stable keys: type | file | enclosing function | what # ordinal
@@ -533,6 +547,7 @@ def analyse(recs):
         for g in tg:
             add_edge(g, c["fn"], hls, blocked)
     n_lambda_in_try = 0
+    refs_in_try = []
     for r in refs:
         tg = [g for g in ({r["callee"]} | allover(r["callee"])) if g in fn]
         if not tg:
@@ -542,6 +557,8 @@ def analyse(recs):
         hls = handler_lists(r["fn"], r.get("ctx", []))
         if hls:
             n_lambda_in_try += 1
+            refs_in_try.append(dict(creator=fn[r["fn"]]["name"], callable=r["name"], loc=rel(r["loc"]), lam=bool(r.get("lambda")),
+                                    handlers=[" / ".join(hl) for hl in hls]))
         for g in tg:
             add_edge(g, r["fn"], hls)
 
@@ -561,6 +578,10 @@ def analyse(recs):
         if not any(fn[u]["name"] == nm for u in api):
             raise Unrecognised("analysis API function %s not found" % nm)
     entries += api
+    # functions with a non-throwing exception specification (noexcept, destructors): an exception that tries to leave one
+    # calls std::terminate whatever handlers are further up, so each of them is a terminate point = entry
+    nothrow = [u for u in fids if fn[u].get("nothrow") and u not in entries]
+    entries += nothrow
     sorted_edges = dict((g, sorted(es, key=lambda e: (fn[e[0]]["name"], e[0], e[1], e[2]))) for g, es in edges.items())
 
     def reach_from(f0, t):
@@ -641,10 +662,12 @@ def analyse(recs):
     M.fn, M.fids, M.fidx, M.tlist, M.tidx, M.classes = fn, fids, fidx, tlist, tidx, classes
     M.sites, M.edges, M.entries, M.alarms, M.reach = sites, edges, entries, alarms, reach_by_type
     M.funnels, M.tries = funnels, tries
+    M.nothrow = nothrow
+    M.refs_in_try = sorted(refs_in_try, key=lambda d: d["loc"])
     M.closed_runs = sorted(set(closed_run_edges))
     M.stats = dict(functions=len(fids), types=len(tlist), sites=len(sites), throw_sites=sum(1 for s in sites if s["what"].startswith("throw")),
                    std_call_sites=n_std_calls, try_blocks=len(tries), call_edges=sum(len(v) for v in edges.values()),
-                   refs_inside_try=n_lambda_in_try, alarms=len(alarms),
+                   refs_inside_try=n_lambda_in_try, alarms=len(alarms), nothrow_functions=len(nothrow),
                    guarded_sites=sum(1 for s in sites if s["guard"]),
                    guarded_edges=sum(1 for v in edges.values() for e in v if e[2]))
     return M
@@ -863,7 +886,16 @@ def totality(ctx, res):
         text = re.sub(r'"([^"\\]|\\.)*"', '""', text)
         for m in PARTIAL_RE.finditer(text):
             bad.append("%s: %s" % (os.path.basename(p), m.group(0).strip()))
-    res.oblig("totality:modelled-kernels-build-with-termination-proofs", ok and not bad and not missing, "totality",
+    # Audit M1: Lean totality of a model says nothing about the C++ loop it copies when the model terminates by explicit fuel.
+    # This is a hygiene obligation about the models (no `partial`/`unsafe` escape hatch), NOT part of what C13 claims about cppcheck.
+    fuelled, unfuelled = [], []
+    for p in core.lean_files_of(mods):
+        text = re.sub(r"--[^\n]*", "", open(p, encoding="utf-8", errors="replace").read())
+        n = len(re.findall(r"^\s*(?:private\s+|protected\s+)?def\s+[^\n:=]*\(\s*fuel\b|\|\s*fuel\s*\+\s*1\b|:\s*Nat\s*→[^\n]*\n\s*\|\s*0\s*,", text, re.M))
+        (fuelled if re.search(r"\bfuel\b", text) else unfuelled).append(os.path.basename(p)[:-5])
+    res.extra["kernel_models_fuelled(termination of the C++ loop not claimed)"] = fuelled
+    res.extra["kernel_models_structural_or_measure"] = unfuelled
+    res.oblig("hygiene:models-are-total(no partial/unsafe)", ok and not bad and not missing, "hygiene",
               ("missing modules: %s\n" % missing if missing else "") + ("\n".join(bad) if bad else "") + ("" if ok else log[-2500:]))
     res.extra["kernel_modules"] = len(mods)
 
@@ -1265,6 +1297,32 @@ def run(ctx, res):
     if M is not None:
         res.extra["funnels"] = [dict(name=f["name"], handlers=["%s -> %s" % h for h in f["handlers"]]) for f in M.funnels]
         res.extra["guard_kinds"] = GUARD_KINDS
+        # M2 of the audit: guarded sites are contained only by the translator's AST rule, which the Lean semantics does not trust
+        # (funnel_complete has the explicit disjunct `s.guard ≠ 0`): list every one of them, per site, with the recognised evidence
+        gl, per_kind = [], {}
+        for s_ in M.sites:
+            if s_["guard"]:
+                per_kind[s_["guard"]] = per_kind.get(s_["guard"], 0) + 1
+                gl.append(dict(key=s_["key"], loc=rel(s_["loc"]), kind=s_["guard"], what=s_["what"], type=s_["ty"],
+                               evidence=s_.get("guard_evidence") or ("every call of this precondition function is a site of its caller" if s_["guard"] == 7 else "")))
+        res.extra["guarded_sites"] = gl
+        bad_ev = [g for g in gl if g["kind"] in (1, 2, 3, 4) and not g["evidence"]]
+        res.oblig("funnel:guarded-sites-carry-evidence", not bad_ev, "translation",
+                  "" if not bad_ev else "guard without recorded dominating condition: %s" % [g["key"] for g in bad_ev][:5])
+        for k in sorted(per_kind):
+            res.assumptions.append("%d site(s) are excluded from the containment theorem by AST guard rule %d (%s); the rule matches source text of dominating "
+                                   "conditions and does not check for an intervening mutation; sites: %s" %
+                                   (per_kind[k], k, GUARD_KINDS.get(k, "?"), ", ".join(g["loc"] for g in gl if g["kind"] == k)))
+        # M4: assumption A1, per callable created inside a try block
+        for r_ in M.refs_in_try:
+            res.assumptions.append("A1: the %s `%s` created at %s inside a try block of %s (handlers %s) is assumed to be invoked only while that block is active" %
+                                   ("lambda" if r_["lam"] else "function reference", r_["callable"].split("(")[0] or r_["callable"], r_["loc"], r_["creator"], r_["handlers"]))
+        res.assumptions.append("A1 (general): a lambda / function reference is modelled as called where it is created; a callable stored and invoked from an unrelated "
+                               "call chain is not followed (calls through std::function / function pointers have no other edges)")
+        res.assumptions.append("the call graph (rows) is complete for direct calls, constructor calls, virtual calls (all overriders) and references visible in the AST of the 84 TUs "
+                               "under the Linux configuration; implicit destructor calls, default member initialisers and calls made by std code into project code other than through "
+                               "callables are not edges")
+        res.extra["nothrow_terminate_points"] = len(M.nothrow)
         nf = no = 0
         used_findings = set()
         for c in cl:
@@ -1281,7 +1339,7 @@ def run(ctx, res):
         res.extra["alarms"] = dict(total=len(cl), findings=nf, open=no, new=len(new_alarms))
         for a, chain in new_alarms[:40]:
             res.oblig("funnel:unclassified-alarm:" + a["key"], False, "translation",
-                      "an exception of type %s raised by `%s` at %s can leave main uncaught along: %s" % (a["ty"], a["site"]["what"], rel(a["site"]["loc"]), chain))
+                      "an exception of type %s raised by `%s` at %s can leave an entry point (main / analysis API / a noexcept function or destructor) uncaught along: %s" % (a["ty"], a["site"]["what"], rel(a["site"]["loc"]), chain))
         res.oblig("funnel:every-alarm-guarded-finding-or-open", not new_alarms, "translation",
                   "" if not new_alarms else "%d alarm(s) are neither guarded, nor demonstrated findings, nor listed open assumptions" % len(new_alarms))
         res.extra["finding_keys_with_alarms"] = sorted(used_findings)
